@@ -64,6 +64,10 @@ def make_world(r, gentle=False):
     fmax = 0.033 if gentle else 1.0
     fmin = 0.01 if gentle else 0.05
     wd = _make_world(r, k_rate, k_force, fmin, fmax)
+    if r.random() < 0.06:
+        # within metres of the +-180 degree longitude line (errors, fixes and the motion
+        # itself cross it)
+        wd['lon'] = float((180.0 - 10.0 ** r.uniform(-7, -4)) * (1 if r.random() < 0.5 else -1))
     u = r.random()
     if u < 0.08:
         # a straight, non-rotating leg: consecutive attitudes (almost) identical
